@@ -22,6 +22,7 @@ func Assertf(c bool, id string, msg string)
 // AssertUnless: if key is listed as a known finding, proves c ∨ trigger and records whether
 // ¬c ∧ trigger is reachable; otherwise proves c.
 func AssertUnless(c bool, trigger bool, id string, key string)
+func KnownFaultRegion(trigger bool, key string)
 func Reach(label string)
 func Param(name string, def int) int
 func Note(msg string)
@@ -32,6 +33,7 @@ func Or(a, b bool) bool
 func Implies(a, b bool) bool
 func Ite64(c bool, a, b uint64) uint64
 func SameExpr(a, b uint64) bool
+func Concretize64(v uint64) uint64
 func StubReturn64(fn string, v uint64)
 func StubClear()
 
